@@ -10,7 +10,8 @@ EXPLANATION = (
     "roff line. Every Roff::control call of clap_mangen is enumerated; its name must be a constant and the symbolic "
     "structure of each argument (lib/strflow.py: interprocedural, field-sensitive for Man's fields, models vec!/format!/"
     "closures) may contain author text (clap getters for names, about, help, headings, version, author, env, ...; parameters "
-    "of Man's public setters) only below a newline neutraliser (str::lines items or replace('\\n', _)). "
+    "of Man's public setters) only in the title (.TH) and heading (.SH) requests and only below a newline neutraliser "
+    "(str::lines items or replace('\\n', _)); every other request must have constant arguments. "
     "R19.2 guard dominance: in Man::render every optional section is rendered on the true edge of its predicate "
     "(app_has_version / app_has_arguments / app_has_subcommands / after-help / author present). R19.3 HIDE: every iteration "
     "over arguments / positionals / subcommands / possible values in render.rs and lib.rs is filtered by is_hide_set "
@@ -81,6 +82,10 @@ def run(ctx):
         t = sf.tree(b, c.args[2])
         bad = []
         for leaf, path in leaves(t):
+            if name not in ("TH", "SH"):
+                # only the title (.TH) and section-heading (.SH) requests take text arguments by design
+                bad.append("%s as argument of .%s" % (leaf[1].rsplit("::", 1)[1] if leaf[0] == "src" else "setter parameter", name))
+                continue
             neutral = any(p[0] == "mark" or (p[0] == "repl" and p[1] == "\n" and p[2] is not None and "\n" not in p[2]) for p in path)
             if neutral:
                 continue
